@@ -246,6 +246,63 @@ impl LogIterator {
 //@ end
 }
 
-//@ min-verified 12
+// ---- the consumers of the iterator that run at store recovery (lsmtk KeyValueStore::recover_one -> log_to_builder) and
+// in log verification (log_to_setsum): with `next` returning ANYTHING its contract above allows -- in particular Err, which
+// is what a log cut inside a header or a payload produces (log_read::lemma_torn_tail) -- the loops must not panic.
+// `Result::unwrap` carries vstd's precondition `self is Ok`, so an `.unwrap()` of the iterator's result is an obligation
+// that fails here.
+#[verifier::external_body]
+struct LogOptions { _p: u8 }
+#[verifier::external_body]
+struct LogPath { _p: u8 }
+#[verifier::external_body]
+struct Setsum { _p: u8 }
+impl Setsum {
+    #[verifier::external_body]
+    fn default() -> (r: Setsum) { unimplemented!() }
+    #[verifier::external_body]
+    fn put(&mut self, key: &[u8], timestamp: u64, value: &[u8]) { unimplemented!() }
+    #[verifier::external_body]
+    fn del(&mut self, key: &[u8], timestamp: u64) { unimplemented!() }
+}
+#[verifier::external_body]
+struct KeyValuePair { _p: u8 }
+impl KeyValuePair {
+    #[verifier::external_body]
+    fn from(kvr: KeyValueRef<'_>) -> (r: KeyValuePair) { unimplemented!() }
+}
+impl LogIterator {
+    // LogIterator::new(options, path): opening may fail; an opened iterator starts with an empty buffer
+    #[verifier::external_body]
+    fn open(log_options: LogOptions, log_path: &LogPath) -> (r: Result<LogIterator, SError>)
+        ensures r is Ok ==> r->Ok_0.buffer@.len() == 0,
+    { unimplemented!() }
+}
+
+//@ extract sst/src/log.rs | fn log_to_setsum
+//@ ret r
+//@ prefix #[verifier::exec_allows_no_decreases_clause]
+//@ rewrite-re X4 `<P: AsRef<Path>>` => ``
+//@ rewrite-re X4 `log_path: P,` => `log_path: &LogPath,`
+//@ rewrite X7 `LogIterator::new(log_options, log_path)?` => `LogIterator::open(log_options, log_path)?`
+//@ end
+
+// the reading half of log_to_builder (the statements up to the sort): every entry of the log is collected, or the error
+// of the iterator is returned
+//@ extract sst/src/log.rs | fn log_to_builder
+//@ prefix #[verifier::exec_allows_no_decreases_clause]
+//@ region `let mut log_iter = LogIterator::open` .. `while let Some(kvr) = log_iter.next()`
+//@ region-sig <<
+fn log_to_builder_read(log_options: LogOptions, log_path: &LogPath) -> (r: Result<Vec<KeyValuePair>, SError>)
+//@ >>
+//@ region-tail <<
+    Ok(kvrs)
+//@ >>
+//@ rewrite X7 `LogIterator::new(log_options, log_path)?` => `LogIterator::open(log_options, log_path)?`
+//@ end
+
+//@ min-verified 14
 } // verus!
+// `Result::unwrap` wants E: Debug; the formatting itself is never interpreted
+impl std::fmt::Debug for SError { fn fmt(&self, _f: &mut std::fmt::Formatter<'_>) -> std::fmt::Result { Ok(()) } }
 fn main() {}
